@@ -15,6 +15,7 @@
 extern int mpt_stream_setmode(MPT_STRUCT(stream) *stream, int mode)
 {
 	static const MPT_STRUCT(queue) qinit = MPT_QUEUE_INIT;
+	static const MPT_STRUCT(decode_state) dinit = MPT_DECODE_INIT;
 	int flags;
 	
 	if (mode & 0xf) {
@@ -40,8 +41,9 @@ extern int mpt_stream_setmode(MPT_STRUCT(stream) *stream, int mode)
 				free(stream->_rd.data.base);
 			}
 		}
-		/* invalidate read queue */
+		/* invalidate read queue (and decoder positions in it) */
 		stream->_rd.data = qinit;
+		stream->_rd._state = dinit;
 	}
 	/* keep write queue */
 	if (mode & (MPT_STREAMFLAG(WriteBuf))) {
